@@ -1252,6 +1252,10 @@ class Evaluator:
                 return a0
             if isinstance(a0, Const):
                 return Const(str(a0.value))
+            if isinstance(a0, Obj) and a0.root:
+                sf = a0.cls.resolve("__str__")
+                if sf is not None:
+                    return self.call_function(sf, a0.cls, a0, [], {}, self.src(fr, e))
             return Str((Hole(a0, "str", self.src(fr, e)),))
         if name == "cast" and len(args) == 2:
             return args[1]
